@@ -16,6 +16,7 @@ package c04
 // covered by sectionPipeline with hand-built package records.
 
 import (
+	"archive/zip"
 	"bytes"
 	"context"
 	"crypto/sha256"
@@ -252,7 +253,14 @@ func worldConfig(v any) error {
 }
 
 func (h *harness) sectionFull() {
-	ctx, r := h.ctx, h.r
+	r := h.r
+	ctx, cancel := context.WithTimeout(h.ctx, 4*time.Minute)
+	defer cancel()
+	defer func() {
+		if ctx.Err() != nil {
+			r.Fail("", "full: libindex / libvuln did not finish within four minutes (hang)")
+		}
+	}()
 	fail := func(what string, err error) { r.Fail("", fmt.Sprintf("full: %s: %v", what, err)) }
 	w := newWorld()
 	advPair := func(p pkgPair, rel string, bySource bool) []adv {
@@ -263,7 +271,9 @@ func (h *harness) sectionFull() {
 		return []adv{{pkg: vn, fixed: p.fixIn, id: "ADV-" + rel + "-vuln"}, {pkg: fn, fixed: p.fixIn, id: "ADV-" + rel + "-fixed"},
 			{pkg: decoy, fixed: p.fixIn, id: "ADV-" + rel + "-decoy-kind"}}
 	}
-	apkP, debP, ubP, pyP, rbP := h.genPair("apk"), h.genPair("deb"), h.genPair("deb"), h.genPair("sem"), h.genPair("sem")
+	apkP, debP, ubP, pyP, rbP, jvP := h.genPair("apk"), h.genPair("deb"), h.genPair("deb"), h.genPair("sem"), h.genPair("sem"), h.genPair("sem")
+	// Maven coordinates group:artifact
+	jvP.vulnBin, jvP.fixedBin = "org.verif."+jvP.vulnSrc+":"+jvP.vulnBin, "org.verif."+jvP.fixedSrc+":"+jvP.fixedBin
 	aadv := map[string][]adv{}
 	for _, e := range h.fx.Dirs["alpine"] {
 		aadv[e.Release] = advPair(apkP, "alpine-"+e.Release, true)
@@ -293,7 +303,9 @@ func (h *harness) sectionFull() {
 			{id: "ADV-pypi-fixed", ecosystem: "PyPI", name: pyP.fixedBin, purl: "pkg:pypi/y", rangeType: "ECOSYSTEM", intro: "0", fixed: pyP.fixIn}},
 		"RubyGems": {{id: "ADV-gem-vuln", ecosystem: "RubyGems", name: rbP.vulnBin, purl: "pkg:gem/x", rangeType: "ECOSYSTEM", intro: "0", fixed: rbP.fixIn},
 			{id: "ADV-gem-fixed", ecosystem: "RubyGems", name: rbP.fixedBin, purl: "pkg:gem/y", rangeType: "ECOSYSTEM", intro: "0", fixed: rbP.fixIn}},
-		"Maven": {{id: "ADV-maven-decoy", ecosystem: "Maven", name: pyP.vulnBin, purl: "pkg:maven/x", rangeType: "ECOSYSTEM", intro: "0", fixed: pyP.fixIn}},
+		"Maven": {{id: "ADV-maven-decoy", ecosystem: "Maven", name: pyP.vulnBin, purl: "pkg:maven/x", rangeType: "ECOSYSTEM", intro: "0", fixed: pyP.fixIn},
+			{id: "ADV-maven-vuln", ecosystem: "Maven", name: jvP.vulnBin, purl: "pkg:maven/x", rangeType: "ECOSYSTEM", intro: "0", fixed: jvP.fixIn},
+			{id: "ADV-maven-fixed", ecosystem: "Maven", name: jvP.fixedBin, purl: "pkg:maven/y", rangeType: "ECOSYSTEM", intro: "0", fixed: jvP.fixIn}},
 	}
 	var goVuln, goFixed *claircore.Package
 	if exeBytes != nil {
@@ -453,8 +465,33 @@ func (h *harness) sectionFull() {
 	scan("ruby", "rubygems", rbP, "ADV-gem-vuln", map[string][]byte{
 		"usr/local/bundle/specifications/" + rbP.vulnBin + "-" + rbP.vulnVer + ".gemspec":   spec(rbP.vulnBin, rbP.vulnVer),
 		"usr/local/bundle/specifications/" + rbP.fixedBin + "-" + rbP.fixedVer + ".gemspec": spec(rbP.fixedBin, rbP.fixedVer)})
+	scan("java", "maven", jvP, "ADV-maven-vuln", map[string][]byte{
+		"opt/app/lib/" + jvArt(jvP.vulnBin) + "-" + jvP.vulnVer + ".jar":   mkJar(jvP.vulnBin, jvP.vulnVer),
+		"opt/app/lib/" + jvArt(jvP.fixedBin) + "-" + jvP.fixedVer + ".jar": mkJar(jvP.fixedBin, jvP.fixedVer)})
 	if goVuln != nil && goFixed != nil {
 		gp := pkgPair{vulnBin: goVuln.Name, fixedBin: goFixed.Name, vulnVer: goVuln.Version, fixedVer: goFixed.Version, fixIn: "next major / same"}
 		scan("gobin", goVuln.Name, gp, "ADV-go-vuln", map[string][]byte{"usr/local/bin/app": exeBytes})
 	}
+}
+
+func jvArt(coord string) string {
+	if i := strings.IndexByte(coord, ':'); i >= 0 {
+		return coord[i+1:]
+	}
+	return coord
+}
+
+// mkJar builds a jar whose identity is in META-INF/maven/<group>/<artifact>/pom.properties.
+func mkJar(coord, version string) []byte {
+	group, art, _ := strings.Cut(coord, ":")
+	var buf bytes.Buffer
+	zw := zip.NewWriter(&buf)
+	f, _ := zw.Create("META-INF/MANIFEST.MF")
+	f.Write([]byte("Manifest-Version: 1.0\r\nCreated-By: verif\r\n\r\n"))
+	f, _ = zw.Create("META-INF/maven/" + group + "/" + art + "/pom.properties")
+	f.Write([]byte("#Generated\ngroupId=" + group + "\nartifactId=" + art + "\nversion=" + version + "\n"))
+	f, _ = zw.Create("org/verif/A.class")
+	f.Write([]byte{0xca, 0xfe, 0xba, 0xbe})
+	zw.Close()
+	return buf.Bytes()
 }
